@@ -40,7 +40,22 @@ struct Pending {
     label: &'static str,
 }
 
+/// An entry of the per-execution event log: channel operations reported by the shim and marks
+/// placed by the harness, in the order in which they happened.
+#[derive(Clone, Debug)]
+pub struct Ev {
+    pub tid: Tid,
+    /// Some(kind) for a shim operation, None for a harness mark
+    pub kind: Option<OpKind>,
+    /// object ordinal (shim operation) or mark code
+    pub a: usize,
+    /// success flag (shim operation) or mark argument
+    pub b: usize,
+}
+
 struct Th {
+    /// how often the thread parked on an operation that was not enabled at that moment
+    blocked: usize,
     st: St,
     pending: Option<Pending>,
     cv: Arc<Condvar>,
@@ -80,7 +95,8 @@ struct CellHist {
 
 struct State {
     th: Vec<Th>,
-    os: Vec<Option<std::thread::JoinHandle<()>>>,
+    /// OS-level jobs of this execution that have not returned yet
+    live_os: usize,
     current: Option<Tid>,
     done: bool,
     deadlock: bool,
@@ -99,6 +115,7 @@ struct State {
     hb: Hb,
     races: Vec<Race>,
     panics: Vec<(Tid, String)>,
+    events: Vec<Ev>,
 }
 
 pub struct Exec {
@@ -277,6 +294,9 @@ fn park(ex: &Arc<Exec>, me: Tid, pending: Pending) -> Go {
     let label = pending.label;
     st.th[me].pending = Some(pending);
     st.th[me].st = St::Ready;
+    if !matches!(st.th[me].pending.as_ref().unwrap().wait, PWait::Quiescent) && !st.enabled_plain(&st.th[me], me) {
+        st.th[me].blocked += 1;
+    }
     ex.schedule(&mut st, Some(me));
     let cv = st.th[me].cv.clone();
     while st.current != Some(me) && !st.aborting {
@@ -329,6 +349,15 @@ impl Runtime for Sched {
         if st.aborting {
             return;
         }
+        if matches!(d.kind, OpKind::ChanTrySend | OpKind::ChanSend | OpKind::ChanRecv | OpKind::ChanTryRecv) {
+            let ord = st.ordinal(d.obj);
+            st.events.push(Ev {
+                tid: me,
+                kind: Some(d.kind),
+                a: ord,
+                b: d.success as usize,
+            });
+        }
         hb_done(&mut st, me, &d);
     }
 
@@ -372,6 +401,7 @@ fn spawn_model(name: String, body: Box<dyn FnOnce() + Send + 'static>) -> Tid {
     st.hb.clocks.push(c);
     tick(&mut st.hb, me);
     st.th.push(Th {
+        blocked: 0,
         st: St::Ready,
         pending: Some(Pending {
             kind: OpKind::ThreadSpawn,
@@ -383,13 +413,53 @@ fn spawn_model(name: String, body: Box<dyn FnOnce() + Send + 'static>) -> Tid {
         name,
         ended_by: None,
     });
+    st.live_os += 1;
     let ex2 = ex.clone();
-    let h = std::thread::Builder::new()
-        .stack_size(1024 * 1024)
-        .spawn(move || thread_main(ex2, tid, body))
-        .expect("cannot spawn OS thread");
-    st.os.push(Some(h));
+    pool_run(Box::new(move || os_job(ex2, tid, body)));
     tid
+}
+
+// ---------------------------------------------------------------------------------------------
+// OS threads are pooled: creating a thread per model thread per execution dominated the cost
+
+type Job = Box<dyn FnOnce() + Send + 'static>;
+
+static IDLE: Mutex<Vec<std::sync::mpsc::Sender<Job>>> = Mutex::new(Vec::new());
+
+fn pool_run(job: Job) {
+    let idle = IDLE.lock().unwrap_or_else(|e| e.into_inner()).pop();
+    let tx = match idle {
+        Some(tx) => tx,
+        None => {
+            let (tx, rx) = std::sync::mpsc::channel::<Job>();
+            let mine = tx.clone();
+            std::thread::Builder::new()
+                .stack_size(1024 * 1024)
+                .spawn(move || {
+                    while let Ok(job) = rx.recv() {
+                        let _ = panic::catch_unwind(AssertUnwindSafe(job));
+                        IDLE.lock().unwrap_or_else(|e| e.into_inner()).push(mine.clone());
+                    }
+                })
+                .expect("cannot spawn OS thread");
+            tx
+        }
+    };
+    tx.send(job).expect("pooled thread is gone");
+}
+
+fn os_job(ex: Arc<Exec>, tid: Tid, body: Box<dyn FnOnce() + Send + 'static>) {
+    struct Guard(Arc<Exec>);
+    impl Drop for Guard {
+        fn drop(&mut self) {
+            CUR.with(|c| *c.borrow_mut() = None);
+            let mut st = lock(&self.0);
+            st.live_os -= 1;
+            self.0.ctl.notify_all();
+        }
+    }
+    let _g = Guard(ex.clone());
+    thread_main(ex, tid, body);
 }
 
 fn thread_main(ex: Arc<Exec>, tid: Tid, f: Box<dyn FnOnce() + Send + 'static>) {
@@ -673,6 +743,29 @@ pub fn choose(n: usize) -> usize {
     st.decide(n, vec![false; n], 0xdada ^ n as u64, true)
 }
 
+/// Append a harness mark to the execution's event log (not a scheduling point).
+pub fn mark(code: usize, arg: usize) {
+    if let Some((ex, me)) = cur() {
+        let mut st = lock(&ex);
+        if !st.aborting {
+            st.events.push(Ev {
+                tid: me,
+                kind: None,
+                a: code,
+                b: arg,
+            });
+        }
+    }
+}
+
+/// How often the calling thread has had to wait for an operation that was not enabled.
+pub fn my_blocked_count() -> usize {
+    match cur() {
+        Some((ex, me)) => lock(&ex).th[me].blocked,
+        None => 0,
+    }
+}
+
 /// A condition the scheduler can see: threads waiting on a closed gate are disabled.
 #[derive(Clone, Default)]
 pub struct Gate(Arc<AtomicBool>);
@@ -712,6 +805,7 @@ pub struct EndState {
     pub races: Vec<Race>,
     /// panics that were neither scripted nor teardown, with the thread they occurred on
     pub panics: Vec<(Tid, String)>,
+    pub events: Vec<Ev>,
 }
 
 impl EndState {
@@ -774,7 +868,7 @@ pub fn run_one<V>(cfg: RunCfg, body: Box<dyn FnOnce() + Send + 'static>, judge: 
     let ex = Arc::new(Exec {
         st: Mutex::new(State {
             th: vec![],
-            os: vec![],
+            live_os: 0,
             current: None,
             done: false,
             deadlock: false,
@@ -796,12 +890,14 @@ pub fn run_one<V>(cfg: RunCfg, body: Box<dyn FnOnce() + Send + 'static>, judge: 
             },
             races: vec![],
             panics: vec![],
+            events: vec![],
         }),
         ctl: Condvar::new(),
     });
     {
         let mut st = lock(&ex);
         st.th.push(Th {
+            blocked: 0,
             st: St::Ready,
             pending: Some(Pending {
                 kind: OpKind::ThreadSpawn,
@@ -813,12 +909,9 @@ pub fn run_one<V>(cfg: RunCfg, body: Box<dyn FnOnce() + Send + 'static>, judge: 
             name: "main".into(),
             ended_by: None,
         });
+        st.live_os += 1;
         let ex2 = ex.clone();
-        let h = std::thread::Builder::new()
-            .stack_size(1024 * 1024)
-            .spawn(move || thread_main(ex2, 0, body))
-            .expect("cannot spawn OS thread");
-        st.os.push(Some(h));
+        pool_run(Box::new(move || os_job(ex2, 0, body)));
         st.current = Some(0);
         st.th[0].cv.notify_one();
     }
@@ -830,7 +923,7 @@ pub fn run_one<V>(cfg: RunCfg, body: Box<dyn FnOnce() + Send + 'static>, judge: 
         st = g;
         if to.timed_out() && !st.done {
             waited += 1;
-            if waited >= 4 {
+            if waited >= 24 {
                 watchdog = true;
                 break;
             }
@@ -851,6 +944,7 @@ pub fn run_one<V>(cfg: RunCfg, body: Box<dyn FnOnce() + Send + 'static>, judge: 
             .collect(),
         races: st.races.clone(),
         panics: st.panics.clone(),
+        events: st.events.clone(),
     };
     drop(st);
     // snapshot first: teardown unwinds blocked threads and runs their destructors
@@ -860,14 +954,18 @@ pub fn run_one<V>(cfg: RunCfg, body: Box<dyn FnOnce() + Send + 'static>, judge: 
     for t in st.th.iter() {
         t.cv.notify_all();
     }
-    let hs: Vec<_> = st.os.iter_mut().map(|h| h.take()).collect();
-    drop(st);
-    if !watchdog {
-        for h in hs.into_iter().flatten() {
-            let _ = h.join();
+    // wait until every OS-level job of this execution has returned to the pool
+    let mut spins = 0;
+    while st.live_os > 0 && !watchdog {
+        let (g, to) = ex.ctl.wait_timeout(st, Duration::from_secs(5)).unwrap_or_else(|e| e.into_inner());
+        st = g;
+        if to.timed_out() {
+            spins += 1;
+            if spins > 24 {
+                break;
+            }
         }
     }
-    let mut st = lock(&ex);
     Outcome {
         points: std::mem::take(&mut st.points),
         steps: st.steps,
